@@ -147,4 +147,52 @@ MUTANTS = [
     # C16
     ("C16", SO, "            self.specific_constraints[op_type].append(TFLiteSupportedOperators.constraint_bias_40bit)\n\n        # Transpose Conv specific checks:", "\n        # Transpose Conv specific checks:", 1),
     ("C16", SO, "        product = op.kernel.area_width() * op.kernel.area_height()", "        product = op.kernel.elements_wh()", 1),
+    # ---- added with the round-2 rules
+    ("C04", "ethosu/vela/range_set.py", "        a_idx = 0\n        b_idx = 0\n", "        if not a_ranges or not b_ranges:\n            return False\n        a_idx = 0\n        b_idx = 0\n", 0),
+    ("C04", "ethosu/vela/range_set.py", "if max(ar[0], br[0]) < min(ar[1], br[1]):", "if max(ar[0], br[0]) <= min(ar[1], br[1]):", 0),
+    ("C04", "ethosu/vela/range_set.py", "if max(ar[0], br[0]) < min(ar[1], br[1]):", "if max(ar[0], br[0]) < min(ar[1], br[1]) - 1:", 1),
+    ("C04", "ethosu/vela/range_set.py", "            if ar[0] < br[0]:\n                a_idx += 1", "            if ar[1] < br[1]:\n                a_idx += 1", 0),  # advancing the range that ends first is the classic sweep: equivalent (thorough tier agrees)
+    ("C04", U, "address = arch.available_shram_banks(True) * arch.shram_bank_size", "address = arch.shram_lut_address", 0),
+    ("C04", U, "address=address, length=2048)", "address=address, length=arch.shram_lut_size)", 0),
+    ("C04", U, "written_shram_size = arch.available_shram_banks(uses_lut) * arch.shram_bank_size", "written_shram_size = arch.available_shram_banks(False) * arch.shram_bank_size", 0),
+    ("C04", U, "written_shram_size = arch.available_shram_banks(uses_lut) * arch.shram_bank_size", "written_shram_size = arch.available_shram_banks(True) * arch.shram_bank_size", 1),
+    ("C04", U, "full_kernel = Block(kernel.area_width(), kernel.area_height(), 65536)", "full_kernel = Block(kernel.area_height(), kernel.area_width(), 65536)", 1),
+    ("C04", U, "full_kernel = Block(kernel.area_width(), kernel.area_height(), 65536)", "full_kernel = Block((kernel.width - 1) * kernel.dilation.x + 1, kernel.dilation.y * (kernel.height - 1) + 1, 65536)", 0),
+    ("C04", U, "full_kernel = Block(kernel.area_width(), kernel.area_height(), 65536)", "full_kernel = arch.ofm_block_max", 1),
+    ("C06", U, "written_shram_size = arch.available_shram_banks(uses_lut) * arch.shram_bank_size", "written_shram_size = arch.available_shram_banks(True) * arch.shram_bank_size", 1),
+    ("C09", G, "use_advanced_scaling = int(ofm_scale) & 0xFFF != 0", "use_advanced_scaling = int(ofm_scale) & 0xFFFF != 0", 0),
+    ("C09", G, "use_advanced_scaling = int(ofm_scale) & 0xFFF != 0", "use_advanced_scaling = True", 0),
+    ("C09", G, "use_advanced_scaling = int(ofm_scale) & 0xFFF != 0", "use_advanced_scaling = int(ofm_scale) & 0x7FF != 0", 1),
+    ("C09", "ethosu/vela/numeric_util.py", "    r = -0.5 if (f < 0) else 0.5\n    return np.trunc(f + r)", "    return np.sign(f) * np.floor(np.abs(f) + 0.5)", 0),
+    ("C09", "ethosu/vela/numeric_util.py", "    return np.trunc(f + r)", "    return np.floor(f + 0.5)", 1),
+    ("C19", "ethosu/vela/numeric_util.py", "    return np.trunc(f + r)", "    return np.rint(f)", 1),
+    ("C09", WC, "    scc = ScaleCompressionConfig(scale_tens and scale_tens.value_id, ifm_scale, ofm_scale)", "    scc = ScaleCompressionConfig(scale_tens and scale_tens.value_id, ofm_scale, ifm_scale)", 1),
+    ("C19", FP, "    if ab >= 0:\n        return ab // divider\n", "    if ab >= 0:\n        return ab >> 15\n", 0),
+    ("C19", FP, "    threshold = mask >> 1", "    threshold = mask // 2", 0),
+    ("C19", FP, "    if x < 0:\n        threshold += 1", "    if x < 0:\n        threshold += 0", 1),
+    ("C19", FP, "        nudge = 1 << 30", "        nudge = 1 << 29", 1),
+    ("C19", "ethosu/vela/numeric_util.py", "    elif x >= 37:", "    elif x >= 8:", 1),
+    ("C19", "ethosu/vela/numeric_util.py", "    elif x >= 37:", "    elif x >= 40:", 0),
+    ("C19", GO, 'convert_to_lut8(op, math.tanh, "tanh")', 'convert_to_lut8(op, np.tanh, "tanh")', 0),
+    ("C19", "ethosu/vela/lut.py", "create_equivalence_id(tuple(values))", "create_equivalence_id(sum(values))", 1),
+    ("C17", "ethosu/vela/npu_serialisation.py", "command_stream_size_bytes = len(payload_bytes)", "command_stream_size_bytes = len(payload_bytes) + 4", 1),
+    ("C17", "ethosu/vela/npu_serialisation.py", "command_stream_size_bytes = len(payload_bytes)", "command_stream_size_bytes = 0 + len(payload_bytes)", 0),
+    ("C17", "ethosu/vela/npu_serialisation.py", "np.frombuffer(payload_bytes, dtype=np.uint8)", "np.frombuffer(payload_bytes[:-4], dtype=np.uint8)", 1),
+    ("C10", HN, "box_end_coord_max = ifm_read_shape[-2]", "box_end_coord_max = ifm_read_shape[-3]", 1),
+    ("C03", HG, "if prev_cmd.is_npu_pass_command() and prev_cmd.ps == producer_op.parent_ps:", "if prev_cmd.ps == producer_op.parent_ps and prev_cmd.is_npu_pass_command():", 0),
+    ("C07", ENC, "int z_unary_len = z_grc_div<3 ? 12 : 8;", "int z_unary_len = z_grc_div<=2 ? 12 : 8;", 0),
+    ("C07", DEC, "int z_unary_len = z_grc_div<3 ? 12 : 8;", "int z_unary_len = z_grc_div<4 ? 12 : 8;", 1),
+    ("C07", DEC, "int z_enable = balance>=0 && use_zero_run && z_pos<z_nvalues;", "int z_enable = use_zero_run && !(balance<0) && z_pos<z_nvalues;", 0),
+    ("C08", WC, "block_depth = min(ofm_block_depth, weight_tens.values.shape[-1])", "block_depth = min(weight_tens.values.shape[-1], ofm_block_depth)", 0),
+    ("C08", G, "            emit.cmd1_with_address(addr, weights[0].address)\n            emit.cmd1_with_offset(length, 0)", "            emit.cmd1_with_address(addr, weights[0].address)\n            emit.cmd1_with_offset(length, 16)", 1),
+    ("C11", "ethosu/vela/tensor.py", "        res.quant_dim = self.quant_dim", "        res.quant_dim = self.quant_max", 1),
+    ("C12", "ethosu/vela/live_range.py", "rng.mark_usage(0, time_to_set + 1)", "rng.mark_usage(0, time_to_set + 2)", 0),
+    ("C12", "ethosu/vela/live_range.py", "rng.mark_usage(0, time_to_set + 1)", "rng.mark_usage(0, time_to_set)", 1),
+    ("C12", "ethosu/vela/scheduler.py", "not any(cons is None for cons in ofm_tens.consumer_list)", "None not in ofm_tens.consumer_list", 0),
+    ("C13", TA, "        if verbose_allocation:\n            print_allocation(lrs, mem_area, mem_type_set, tensor_allocator, sg, total_sz)\n", "        if verbose_allocation and len(lrs.ranges) > 0:\n            print_allocation(lrs, mem_area, mem_type_set, tensor_allocator, sg, total_sz)\n", 0),
+    ("C13", "ethosu/vela/stats_writer.py", " for tens in lst if tens is not None)", " for tens in lst)", 1),
+    ("C14", TM, 'self.custom_opt_format = attrs.get("custom_options_format", self.CUSTOM_OPTIONS_FORMAT_DEFAULT)', 'self.custom_opt_format = attrs.get("custom_options_format", self.custom_opt_format)', 1),
+    ("C15", U, "return Kernel(kernel.width, kernel.height, kernel.stride_x, kernel.stride_y, kernel.dilation_x, kernel.dilation_y)", "return Kernel(kernel.width, kernel.height, kernel.stride_x, kernel.stride_y, kernel.dilation_y, kernel.dilation_x)", 1),
+    ("C16", "ethosu/vela/tflite_model_semantic.py", "        axis = op.attrs[\"axis\"]\n        axis += ofm_dim if axis < 0 else 0\n        tensors", "        axis = op.attrs[\"axis\"]\n        if axis < 0:\n            axis += ofm_dim\n        tensors", 0),
+    ("C02", GO, "        _, _, ow, _ = ofm.shape\n\n        intermediate_tens", "        _, _, ow, _ = ofm.shape\n        _, oh, _, _ = ofm.shape\n\n        intermediate_tens", 0),
 ]
